@@ -335,6 +335,8 @@ async def _run_case(case, max_concurrent=1):
         return None
 
     def subscribe_pair(pi, pair):
+        if case.get("handler_pairs") is not None and pi not in case["handler_pairs"]:
+            return
         # some pairs have a second, passive subscriber (a logger) registered before the strategy's handler
         if pi in case.get("extra_subs", []):
             e.subscribe_to_bar_events(pair, passive_subscriber)
